@@ -1,11 +1,12 @@
-\* the deviation alternatives handed to the replayer are narrow: each one differs from the ideal
-\* expectation only in its own situation (all tables; the rounding case needs ranks 3,4 and boundary 3)
+\* deviation alternatives are narrow (all tables)
+\* (tools/props/C07.py generates the same text; thorough tier uses larger constants)
 CONSTANTS MaxRank = 6
-  BoundSets = {{}, {3}, {1,3,5}, {0,5}}
+  BoundSets = {{3}, {1,3,5}}
   Tables = {"D_small", "D_tiny", "I_small", "I_huge", "I_frac"}
   MMChoices = {TRUE, FALSE}
   Mode = "direct" NSlots = 2 NKeys = 1 ReaderCfgs = {1}
-  MaxAgg = 2 MaxOps = 3 Balanced = FALSE Dev = {} Hist = FALSE
+  MaxAgg = 2 MaxOps = 2 Balanced = FALSE Hist = FALSE
+  Dev = {}
 INIT Init
 NEXT Next
 VIEW View
